@@ -409,6 +409,8 @@ def prebuild(ctx):
     ctx.coq_build_cached(["C14/GenRangeClients.v", "C14/RangeClients.v", "C14/RangeRefine.v", "C14/PropsClients.v"], deps=RANGE_PRE, timeout=900)
     ctx.coq_build_cached(FIX_FILES[:1], deps=FIX_MODEL_DEPS, timeout=600)
     ctx.coq_build_cached(FIX_FILES[1:], deps=_fix_deps() + FIX_FILES[:1], timeout=900)
+    ctx.coq_build_cached(ELIM_FILES[:1], deps=FIX_MODEL_DEPS + FIX_FILES[:1], timeout=600)
+    ctx.coq_build_cached(ELIM_FILES[1:], deps=_fix_deps() + FIX_FILES[:2] + ELIM_FILES[:1], timeout=900)
     from vlib import c14_pass, c14a_part
     c14a_part.prebuild(ctx)
     c14_pass.prebuild(ctx)
@@ -721,6 +723,7 @@ def part_memloc(ctx):
 
 # ---------------------------------------------------------------- the analysis result, validated per function
 FIX_FILES = ["C14/RangeFix.v", "C14/RangeFixProofs.v", "C14/PropsFix.v"]
+ELIM_FILES = ["C14/RangeElim.v", "C14/RangeElimProofs.v", "C14/PropsElim.v"]
 FIX_MODEL_DEPS = ["C14/RangeBase.v", "C14/GenRange.v", "C14/GenRangeClients.v"]
 
 
@@ -741,6 +744,8 @@ def part_fixpoint(ctx):
     # the validator itself (definitions only) does not depend on any proof file
     ctx.coq_build_cached(FIX_FILES[:1], deps=FIX_MODEL_DEPS, timeout=600)
     b = ctx.coq_build_cached(FIX_FILES[1:], deps=_fix_deps() + FIX_FILES[:1], timeout=900)
+    ctx.coq_build_cached(ELIM_FILES[:1], deps=FIX_MODEL_DEPS + FIX_FILES[:1], timeout=600)
+    b2 = ctx.coq_build_cached(ELIM_FILES[1:], deps=_fix_deps() + FIX_FILES[:2] + ELIM_FILES[:1], timeout=900)
     rnd = ctx.rng("fixpoint")
     progs = PC.select(ctx.tier, rnd)
     levels = [OptimizationLevel.GAS] if ctx.tier == "quick" else [OptimizationLevel.GAS, OptimizationLevel.CODESIZE, OptimizationLevel.O3]
@@ -801,13 +806,42 @@ def part_fixpoint(ctx):
                         ctx.violation("correspondence-broken", "the model's transfer functions disagree with _run_block/_evaluate_inst on "
                                       "function " + s_["name"] + " (exit states or per-instruction states differ)",
                                       {"function": s_["text"][:6000], "exit_blocks_differ": r[1], "hash_model": r[2], "hash_real": s_["hash"]})
-    if not b["ok"] and not found:
-        ctx.violation("theorem-broken", f"{b.get('failed_lemma')} in {b['file']}",
-                      {"theorem": b.get("failed_lemma"), "file": b["file"], "coq_output": b["out"][-1500:]})
+    # ---- AssertEliminationPass / OverflowEliminationPass: every invocation that deleted an assertion
+    efound = False
+    for ff in obs.elim_fail:
+        efound = True
+        ctx.violation("failing-input", f"{ff['pass']} deleted an assertion that fails on some execution", ff,
+                      key="elim:fuzz:" + ff["pass"] + ":" + ff["deleted_assert_operand"])
+    estats = {"pass_invocations_with_deletions": len(obs.elim), "assertions_deleted": sum(e_["deleted"] for e_ in obs.elim),
+              "validated": 0, "rejected": 0,
+              "by_pass": {nm: sum(1 for e_ in obs.elim if e_["pass_name"] == nm) for nm in ("AssertEliminationPass", "OverflowEliminationPass")}}
+    if (COQ / "C14" / "RangeElim.vo").exists() and obs.elim:
+        try:
+            eres = c14_fix.evaluate_elim(obs.elim, shard=max(1, len(obs.elim) // 8), timeout=1200)
+        except RuntimeError as e:
+            eres = None
+            ctx.violation("correspondence-broken", "the assert-elimination validator could not be evaluated", {"error": str(e)[-1500:]})
+        if eres is not None:
+            for e_, r in zip(obs.elim, eres):
+                if len(r) >= 1 and r[0] == 1:
+                    estats["validated"] += 1
+                else:
+                    estats["rejected"] += 1
+                    if not efound and not found and estats["rejected"] <= 2:
+                        ctx.violation("theorem-broken", "assert_elimination_sound does not apply: " + e_["pass_name"] + " deleted an assertion "
+                                      "that neither the range of its operand nor the safe-add/safe-sub pattern justifies (function "
+                                      + e_["name"] + ")",
+                                      {"theorem": "assert_elimination_sound (elim_check f E f' = false)", "pass": e_["pass_name"],
+                                       "range_certificate_accepted": bool(len(r) >= 2 and r[1] == 1), "function_after": e_["text"][:6000]})
+    for bb_ in (b, b2):
+        if not bb_["ok"] and not found and not efound:
+            ctx.violation("theorem-broken", f"{bb_.get('failed_lemma')} in {bb_['file']}",
+                          {"theorem": bb_.get("failed_lemma"), "file": bb_["file"], "coq_output": bb_["out"][-1500:]})
     ctx.corr["range_fixpoint"] = stats
+    ctx.corr["assert_elimination"] = estats
     if samples:
         ctx.samples.append({"validated_function": samples[0]["name"], "blocks": samples[0]["nblocks"], "instructions": samples[0]["ninsts"]})
-    return stats["validated"] + stats["dynamic_executions"]
+    return stats["validated"] + stats["dynamic_executions"] + estats["validated"]
 
 
 def run(ctx):
